@@ -45,7 +45,31 @@ var ruleAddenda6 = map[string]string{
 	"C20": "cr variants unfinished-message and ping-then-header.",
 }
 
+// seventh batch
+var ruleAddenda7 = map[string]string{
+	"C01": "W3: three writers on a compressed connection at two preemptions.",
+	"C03": "The read loop asks every other finished reader once more after io.EOF, then reads the next message.",
+	"C04": "Part closemid: Close frame between the fragments of a message through every reading API.",
+	"C05": "W3r under the four asymmetric agreements (300-byte repeating messages); wsjson pool bodies among the race units.",
+	"C06": "Receiver streams also in 7-byte pieces; part accepted (Close frame buffered with the request).",
+	"C07": "s.sticky: transport Read that does not return on Close, late bytes, new client.",
+	"C08": "API wsjson (long string; short value padded with white space).",
+	"C09": "Adversary dupPongs; actions CloseBadArgs / CloseBadCode.",
+	"C10": "Op WJ; family rl (read idle 6 s before a Ping; cancellations after 10 s); rule: live context + healthy peer => nil.",
+	"C11": "Versions 013 and +13; part nohijack.",
+	"C13": "Part silent (refused response, silent server, context without deadline; patience 30 s real time).",
+	"C14": "Tiny uncompressed message inside the exchange; schedx s.conc (second Write during a >64 KiB compressed stream).",
+	"C15": "Script letter L (30 s context, Pong after 6 s).",
+	"C16": "both-w1 / both-stalled (both ends close at once).",
+	"C17": "Part huge (4 GiB + 203 bytes).",
+	"C18": "Ops RDx / WDx (same deadline set twice, idle in between).",
+	"C19": "Sequences also under the asymmetric agreements.",
+}
+
 func init() {
+	for id, add := range ruleAddenda7 {
+		ruleAddenda6[id] += " " + add
+	}
 	for id, add := range ruleAddenda6 {
 		ruleAddenda[id] += " " + add
 	}
